@@ -56,11 +56,12 @@ Fixpoint mk_litinfos (idx : N) (lits : list (list N)) (atoms : list (N * N)) : l
   | _, _ => []
   end.
 
-(* stable insertion sort, longer atoms first *)
+(* stable insertion sort, longer atoms first (x is inserted before the elements that are not longer:
+   with fold_right, literals with atoms of equal length keep their literal order) *)
 Fixpoint ins_li (x : litinfo) (l : list litinfo) : list litinfo :=
   match l with
   | [] => [x]
-  | y :: r => if li_alen y <? li_alen x then x :: l else y :: ins_li x r
+  | y :: r => if li_alen y <=? li_alen x then x :: l else y :: ins_li x r
   end.
 Definition sort_lis (l : list litinfo) : list litinfo := fold_right ins_li [] l.
 
